@@ -37,6 +37,7 @@ type Report struct {
 	assumptions  []string
 	rule         string
 	inconclusive []string
+	exhaustive   string
 	journal      *os.File
 	sets         map[string]map[string]struct{}
 }
@@ -165,6 +166,13 @@ func (r *Report) Sample(v any) {
 	r.mu.Unlock()
 }
 
+// Exhaustive declares that this run enumerated the named finite space completely.
+func (r *Report) Exhaustive(what string) {
+	r.mu.Lock()
+	r.exhaustive = what
+	r.mu.Unlock()
+}
+
 func (r *Report) Inconclusive(why string) {
 	r.mu.Lock()
 	if len(r.inconclusive) < 20 {
@@ -242,6 +250,7 @@ func (r *Report) write(done bool) {
 		"assumptions":   r.assumptions,
 		"rule":          r.rule,
 		"inconclusive":  r.inconclusive,
+		"exhaustive":    r.exhaustive,
 		"done":          done,
 	}
 	b, err := json.Marshal(out)
